@@ -24,7 +24,7 @@ from feems.fuel import Fuel, FuelSpecifiedBy, TypeFuel, FuelOrigin
 from feems.types_for_feems import EmissionType
 
 THEOREMS = ["engine", "pilot", "zero", "nonneg", "constant_curve", "genset", "geared", "fuel_cell", "modules_linear", "modules",
-            "cogas_point", "legacy_cogas_gas_is_ratio", "running_hours_cons", "running_hours_idle", "running_hours_always"]
+            "geared_legacy_wrong_load", "cogas_point", "legacy_cogas_gas_is_ratio", "running_hours_cons", "running_hours_idle", "running_hours_always"]
 DEPENDS_ON_MODULES = ["FeemsProofs.C06"]
 
 
@@ -71,10 +71,11 @@ def gen_case(rng, idx):
                     else:
                         st["curve"] = [float(np.round(rng.uniform(0.9, 0.98), 3))]
         elif kind == "geared":
-            case["gearbox"] = {"rated": rated, "curve": comps.gen_accepted_curve(rng, rated, lo=0.93)}
+            r_gb = float(np.round(rated * float(rng.choice([1.0, 1.0, 1.5, 2.0])), 0))        # a gearbox is rated on its own
+            case["gearbox"] = {"rated": r_gb, "curve": comps.gen_accepted_curve(rng, r_gb, lo=0.93)}
             top = rated * 0.93
             l2, h2 = curve_range(case["gearbox"]["curve"])
-            l2, h2 = l2 / (0.93 * 0.9), h2 / (0.93 * 0.9)
+            l2, h2 = l2 / (0.93 * 0.9) * r_gb / rated, h2 / (0.93 * 0.9) * r_gb / rated
             if max(lo, l2) <= min(hi, h2):
                 lo, hi = max(lo, l2), min(hi, h2)
             else:
@@ -202,7 +203,7 @@ def run_case(ctx, case, model=True):
                 if not close(pe * eg, p, scale=eng.rated_power):
                     ctx.fail("predicate", "engine-power-not-electric-over-efficiency", f"step {t}: engine {pe} x eff {eg} != {p}", where)
             if kind == "geared":
-                egb = float(obj.gearbox.get_efficiency_from_load_percentage(abs(p) / eng_spec["rated"]))
+                egb = float(obj.gearbox.get_efficiency_from_load_percentage(abs(p) / case["gearbox"]["rated"]))
                 if not close(pe * egb, p, scale=eng.rated_power):
                     ctx.fail("predicate", "engine-power-not-shaft-over-gearbox-efficiency", f"step {t}: engine {pe} x eff {egb} != {p}", where)
         elif kind == "fuel_cell_system":
@@ -282,7 +283,7 @@ def run_case(ctx, case, model=True):
                 return float(eng.emissions_g_per_kwh(EmissionType[name], x))
             args = dict(p=enc(p), rated=enc(eng_spec["rated"]), dual=bool(eng_spec.get("dual")), species=sp_names,
                         generator_rated=enc(case["generator"]["rated"]) if kind == "genset" else None,
-                        gearbox=True if kind == "geared" else None)
+                        gearbox=True if kind == "geared" else None, gearbox_rated=enc(case["gearbox"]["rated"]) if kind == "geared" else None)
             ans, tables, rounds = call_with_oracle(ctx.model, "engine.engine", args, oracle)
             ctx.count("oracle_rounds", rounds)
             load = float(np.atleast_1d(rp.load_ratio)[t])
